@@ -25,6 +25,7 @@ are Z; strings are an abstract type K with `eqb` and `is_empty`.
 from __future__ import annotations
 
 import ast
+import re
 import sys
 from pathlib import Path
 
@@ -402,7 +403,7 @@ class Mode:
                         if ft == "od":
                             if it != "str" or t != "int":
                                 bad(s, "OrderedDict item types")
-                            return self.write_field(f, f"(od_set eqb {iv} {v} {self.read_field(f)})", "od", lambda: self.stmts(rest, env))
+                            return self.write_field(f, f"(od_set str_eqb {iv} {v} {self.read_field(f)})", "od", lambda: self.stmts(rest, env))
                         if isinstance(ft, tuple) and ft[0] == "seq":
                             if it != "int":
                                 bad(s, "sequence index type")
@@ -471,7 +472,7 @@ class Mode:
             if t == "int":
                 return k(f"(negb ({v} =? 0))")
             if t == "str":
-                return k(f"(negb (is_empty {v}))")
+                return k(f"(negb (str_is_empty {v}))")
             if isinstance(t, tuple) and t[0] == "opt":
                 return k(f"(match {v} with Some _ => true | None => false end)")
             bad(e, f"truth value of {t}")
@@ -498,7 +499,7 @@ class Mode:
             if e.value is None:
                 return k("None", "none")
             if e.value == "":
-                return k("empty_str", "str")
+                return k("str_empty", "str")
             bad(e, "constant")
         if isinstance(e, ast.Name):
             if e.id in env:
@@ -589,7 +590,7 @@ class Mode:
                     def k_d(d, dt):
                         if at != "str" or dt != "od":
                             bad(e, "membership test")
-                        c = f"(od_contains eqb {a} {d})"
+                        c = f"(od_contains str_eqb {a} {d})"
                         return k(c if isinstance(op, ast.In) else f"(negb {c})", "bool")
                     return self.expr(r, env, k_d)
                 return self.expr(l, env, k_in)
@@ -610,7 +611,7 @@ class Mode:
                         if type(op) in ops:
                             return k(f"({a} {ops[type(op)]} {b})", "bool")
                     if (at, bt) == ("str", "str") and isinstance(op, (ast.Eq, ast.NotEq)):
-                        c = f"(eqb {a} {b})"
+                        c = f"(str_eqb {a} {b})"
                         return k(c if isinstance(op, ast.Eq) else f"(negb {c})", "bool")
                     if (at, bt) == ("bool", "bool") and isinstance(op, (ast.Eq, ast.NotEq)):
                         c = f"(Bool.eqb {a} {b})"
@@ -623,7 +624,7 @@ class Mode:
                 def k_i(i, it):
                     x, ex = tr.gensym("x"), tr.gensym("e")
                     if ot == "od" and it == "str":
-                        return f"match od_get eqb {i} {o} with\n| Exn {ex} => {self.on_exn(ex)}\n| Val {x} =>\n{k(x, 'int')}\nend"
+                        return f"match od_get str_eqb {i} {o} with\n| Exn {ex} => {self.on_exn(ex)}\n| Val {x} =>\n{k(x, 'int')}\nend"
                     if isinstance(ot, tuple) and ot[0] == "seq" and it == "int":
                         return f"match seq_get {o} {i} with\n| Exn {ex} => {self.on_exn(ex)}\n| Val {x} =>\n{k(x, ot[1])}\nend"
                     bad(e, f"subscript of {ot} by {it}")
@@ -722,7 +723,7 @@ class Mode:
             ft = self.info.ftype(fld)
             if ft == "od" and f.attr == "move_to_end" and len(e.args) == 1 and not e.keywords:
                 return self.expr(e.args[0], env, lambda kv, kt: (
-                    f"match od_move_to_end eqb {kv} {self.read_field(fld)} with\n| Exn {ex} => {self.on_exn(ex)}\n"
+                    f"match od_move_to_end str_eqb {kv} {self.read_field(fld)} with\n| Exn {ex} => {self.on_exn(ex)}\n"
                     f"| Val {o} => {self.write_field(fld, o, 'od', lambda: k('tt', 'none'))}\nend" if kt == "str" else bad(e, "move_to_end key")))
             if (ft == "od" and f.attr == "popitem" and not e.args and len(e.keywords) == 1 and e.keywords[0].arg == "last"
                     and isinstance(e.keywords[0].value, ast.Constant) and e.keywords[0].value.value is False):
@@ -863,7 +864,10 @@ def module_consts(path: Path) -> dict[str, int]:
 ALLOWED_IMPORTS = {"__future__", "collections", "dataclasses", "typing", "mypy_extensions", "pyjelly.errors", "pyjelly.options"}
 
 
-CTX_STR = "Context {K : Type} (eqb : K -> K -> bool) (is_empty : K -> bool) (empty_str : K)."
+CTX_STR = ("Context (S : strops).\nNotation K := (carrier S).\nNotation str_eqb := (s_eqb S).\nNotation str_is_empty := (s_is_empty S).\n"
+           "Notation str_empty := (s_empty S).\nNotation str_add := (s_add S).\nNotation str_rpartition := (s_rpartition S).\n"
+           "Notation str_lit := (s_lit S).")
+CTX_TOKENS = re.compile(r"\b(K|str_eqb|str_is_empty|str_empty|str_add|str_rpartition|str_lit)\b")
 UNITS = {
     # unit -> (source file, items to translate (None = every class of the file), section context)
     "lookup_enc": ("pyjelly/serialize/lookup.py", None, CTX_STR),
@@ -949,9 +953,29 @@ def translate_unit(repo: Path, unit: str) -> str:
         "Local Open Scope Z_scope.",
         "Local Open Scope bool_scope.",
     ]
-    if context:
-        return "\n".join(head + ["Section Gen.", context] + tr.out + ["End Gen."]) + "\n"
-    return "\n".join(head + tr.out) + "\n"
+    if not context:
+        return "\n".join(head + tr.out) + "\n"
+    # which definitions depend on the string structure S (they take it as their first argument once the
+    # section is closed; for record projections and constructors it is made implicit)
+    uses: set[str] = set()
+    implicit: list[str] = []
+    for item in tr.out:
+        m = re.match(r"(Record|Definition) (\w+)", item)
+        if not m:
+            continue
+        body = item[m.end():]
+        dep = bool(CTX_TOKENS.search(body)) or any(re.search(r"\b" + re.escape(u) + r"\b", body) for u in uses)
+        if not dep:
+            continue
+        uses.add(m.group(2))
+        if m.group(1) == "Record":
+            mk = re.search(r":= (\w+) \{", item).group(1)
+            projs = re.findall(r"[{;] (\w+) :", item)
+            uses.update([mk] + projs)
+            implicit += [mk] + projs
+    tail = ["End Gen."] + [f"Arguments {n} {{S}}." for n in implicit]
+    tail.append("(* definitions that take the string structure S as their first argument: " + " ".join(sorted(uses - set(implicit))) + " *)")
+    return "\n".join(head + ["Section Gen.", context] + tr.out + tail) + "\n"
 
 
 def main() -> int:
